@@ -571,6 +571,96 @@ def check_convert(res, facts):
         (rule.bad if problems else rule.ok)(key, "; ".join(sorted(set(problems))[:3]) if problems else "(x, y) from 1/z: %s" % ("(X zi^2, Y zi^3)" if label == "SW" else "(X zi, Y zi)"), clo.loc)
 
 
+def check_batchnorm(res, facts):
+    """normalize_batch: the inverses fed to the coordinate maps are those of the z coordinates of the same points in the
+    same order, the identity is kept on the is_zero arm, and a finite point (X, Y, Z) with w = 1/Z is sent to
+    (X w^2, Y w^3) for Jacobian resp. (X w, Y w) for extended Edwards coordinates (compared as polynomials)"""
+    from rules.c07 import E, show, qeq, A, C
+    from rules.c17 import to_q, NotPoly
+    rule = res.rule("R-BATCHNORM", "normalize_batch: per-point inverse of z, in order; (X/Z^2, Y/Z^3) resp. (X/Z, Y/Z); identity kept", 2)
+    for model, ex, ey in (("short_weierstrass", 2, 3), ("twisted_edwards", 1, 1)):
+        fs = [f for f in facts.fns(unit="ws", crate="ark_ec") if f.kind != "Closure" and f.name == "normalize_batch" and ("models::%s::group" % model) in f.id]
+        key = "ark_ec|%s::Projective::normalize_batch" % model
+        if not fs:
+            rule.bad(key, "anchor missing")
+            continue
+        f = fs[0]
+        problems = []
+        clos = [c for c in facts.fns(unit="ws", crate="ark_ec") if c.kind == "Closure" and c.id.startswith(f.id + "::{closure")]
+        zclo = [c for c in clos if E(c, {"c": 0}) == A(2, "z")]
+        pclo = [c for c in clos if any(t["f"].get("name") == "new_unchecked" for _, t in c.calls())]
+        inv = [t for _, t in f.calls() if t["f"].get("name") == "batch_inversion"]
+        zips = [t for _, t in f.calls() if t["f"].get("name") == "zip"]
+        if len(zclo) != 1:
+            problems.append("no closure collecting the z coordinate of each point")
+        if len(inv) != 1 or len(zips) != 1:
+            problems.append("expected one batch_inversion and one zip of the points with the inverses")
+        else:
+            zs = E(f, inv[0]["args"][0])
+            okz = isinstance(zs, tuple) and zs[:2] == ("call", "collect") and isinstance(zs[2][0], tuple) and zs[2][0][:2] == ("call", "map") and zs[2][0][2][0] == C("iter", A(1))
+            if not okz:
+                problems.append("the inverted vector is %s, not the z coordinates of the input in order" % show(zs)[:100])
+            za, zb = E(f, zips[0]["args"][0]), E(f, zips[0]["args"][1])
+            if za != C("iter", A(1)) or zb != zs:
+                problems.append("points are zipped as (%s, %s): the inverses are not paired with their own points" % (show(za)[:60], show(zb)[:60]))
+            if any(t["f"].get("name") in ("rev", "skip", "step_by") for _, t in f.calls()):
+                problems.append("an order-changing adaptor sits between the points and their inverses")
+        if len(pclo) != 1:
+            problems.append("no closure building the affine points")
+        else:
+            c = pclo[0]
+            nu = [t for _, t in c.calls() if t["f"].get("name") == "new_unchecked"][0]
+            names = {A(2, "0", "x"): "X", A(2, "0", "y"): "Y", A(2, "1"): "w"}
+
+            def leaf(t):
+                if t in names:
+                    return names[t]
+                if isinstance(t, tuple) and t[:2] == ("call", "square") and len(t[2]) == 1:
+                    q = to_q(t[2][0], leaf)
+                    return q * q
+                return None
+            try:
+                qx, qy = to_q(E(c, nu["args"][0]), leaf), to_q(E(c, nu["args"][1]), leaf)
+                w = Q.var("w")
+                wx, wy = Q.var("X"), Q.var("Y")
+                for _ in range(ex):
+                    wx = wx * w
+                for _ in range(ey):
+                    wy = wy * w
+                if not (qeq(qx, wx) and qeq(qy, wy)):
+                    problems.append("a finite point is sent to (%s, %s) with w = 1/Z; expected (%s, %s)" % (qx, qy, wx, wy))
+            except NotPoly as e:
+                problems.append("coordinate maps are not polynomials in (X, Y, 1/Z): %s" % e)
+            guards = [E(c, b["t"]["o"]) for b in c.bbs if b["t"]["k"] == "switch"]
+            idents = [t["f"].get("name") for _, t in c.calls() if t["f"].get("name") in ("identity", "zero")]
+            if C("is_zero", A(2, "0")) not in guards or not idents:
+                problems.append("the identity is not kept on an is_zero arm")
+            else:
+                cd = DF.control_deps(c)
+                nbb = [bb for bb, t in c.calls() if t["f"].get("name") == "new_unchecked"][0]
+                ibb = [bb for bb, t in c.calls() if t["f"].get("name") in ("identity", "zero")][0]
+                gsw = [bi for bi, b in enumerate(c.bbs) if b["t"]["k"] == "switch" and E(c, b["t"]["o"]) == C("is_zero", A(2, "0"))][0]
+                t_ = c.bbs[gsw]["t"]
+                false_t, true_t = t_["tgts"][0], t_["else"]
+                if not (_reach_bb(c, true_t, ibb) and not _reach_bb(c, true_t, nbb) and _reach_bb(c, false_t, nbb)):
+                    problems.append("identity / finite arms are attached to the wrong outcome of is_zero")
+        (rule.bad if problems else rule.ok)(key, "; ".join(problems) if problems else "z_i collected in order, batch-inverted, zipped with the points; finite point -> (X w^%d, Y w^%d), identity kept" % (ex, ey), f.loc)
+
+
+def _reach_bb(fn, a, b):
+    succ = fn.succ()
+    seen, st = {a}, [a]
+    while st:
+        x = st.pop()
+        if x == b:
+            return True
+        for y in succ[x]:
+            if y not in seen:
+                seen.add(y)
+                st.append(y)
+    return a == b
+
+
 def run(ctx, res):
     facts = ctx.facts(["ws"])
     res.analysed = facts.stats()
@@ -579,9 +669,10 @@ def run(ctx, res):
     check_eq(res, facts)
     check_dispatch(res, facts)
     check_convert(res, facts)
+    check_batchnorm(res, facts)
     return {
         "level": "proof",
-        "explanation": "Each obligation is an identity of rational functions over Z in the coordinates of the operands (and the curve coefficients as symbols): the MIR of the formula block is evaluated symbolically on every general-position path (configuration arms a = 0 / a != 0 and base-field degree split) and compared with the textbook affine group law through the coordinate maps (X/Z^2, Y/Z^3) resp. (X/Z, Y/Z) with T = XY/Z; plus structural rules for exceptional-case dispatch, representation-independent equality, on-curve tests and operators defined through other operators. Completeness of the unified Edwards law on the prime-order subgroup and batch normalisation are NOT decided.",
+        "explanation": "Each obligation is an identity of rational functions over Z in the coordinates of the operands (and the curve coefficients as symbols): the MIR of the formula block is evaluated symbolically on every general-position path (configuration arms a = 0 / a != 0 and base-field degree split) and compared with the textbook affine group law through the coordinate maps (X/Z^2, Y/Z^3) resp. (X/Z, Y/Z) with T = XY/Z; plus structural rules for exceptional-case dispatch, representation-independent equality, on-curve tests and operators defined through other operators. Batch normalisation: order / pairing of the inverted z coordinates and the per-point maps (R-BATCHNORM). Completeness of the unified Edwards law on the prime-order subgroup is NOT decided.",
         "assumptions": ["denominators do not vanish on the general-position arm (exceptional cases are dispatched separately, R-DISPATCH)", "base field operations form a field (C01/C02)"],
         "trusted_base": ["rustc MIR construction and trait resolution", "arklib/symex.py and arklib/poly.py", "the affine group-law formulas in rules/c03.py"],
     }
